@@ -8,6 +8,44 @@ import sys
 ROOT = os.path.dirname(os.path.dirname(os.path.abspath(__file__)))
 
 CLAIMED = {
+    "C07": dict(
+        category="model_checking",
+        text="A TLA+ requirement (BoolFun.tla) gives every handle of the decision-diagram manager a truth table over the registered "
+             "variables and states each operation (literal, apply and/or, negate, exactly-one, variable introduction, budgeted twins) by "
+             "its postcondition on these tables including canonicity (equal tables - equal handles) and 'exhaustion changes nothing'; "
+             "TLC checks a small code-shaped model (unique table, apply/negate caches filled after success, variables introduced between "
+             "operations, exhaustion at any call) against it. Every transition of that model is replayed on a real SddManager, and "
+             "recordings of the real SddManager - all operand pairs over 2 (quick) / 3 (thorough) variables through apply and try_apply, "
+             "seeded random sequences over up to 8 variables, and fault enumeration (deadline closure expiring at the k-th checkpoint for "
+             "every k up to the measured count, every node limit, then continued use of the same manager with all handles probed) - are "
+             "validated event by event by the TLA+ trace specification: TLC computes the truth table of the formula, the completions of "
+             "enumerate_models, and the WMC and gradient sums.",
+        design_ref="DESIGN.md section 5 (C07)",
+        note="Trusted: TLC, Json/FiniteSetsExt community modules, the recording harness (harness/src/c07.rs: SddId numbered by first "
+             "appearance, float WMC*4^n rounded to an integer with a 1e-6 integrality flag). Weights are multiples of 1/4; WMC/gradient "
+             "are compared only for functions that imply exactly-one of every registered exclusive group (TLA+ predicate WmcMeaningful). "
+             "Exhaustive only for operand pairs over <= 3 variables and the bounded L1/L2 model; up to 8 variables by seeded sampling; "
+             "sequences with more interruption points than the cap are sampled. Unregistered variables and duplicate variables in "
+             "exactly_one are outside the API's contract and not generated. No finding: the check passes on the unchanged tree.",
+        technique="TLA+ model checking (TLC) + edge-cover replay + trace validation against the TLA+ requirement with fault enumeration",
+    ),
+    "C08": dict(
+        category="model_checking",
+        text="TLC checks a code-shaped model of the hybrid escalation controller (top-k rounds, certificates, adaptive k, exact fallback, "
+             "clock expiry enabled at every clock reading, proof enumeration abstracted to any antichain of proofs with a sound residual) "
+             "against the C08 requirement exhaustively for all proof sets over 3 seeds; TLC emits every lineage of that universe and the grid "
+             "of valid configurations and the real evaluator is run on all of them; seeded random monotone/non-monotone lineage DAGs with "
+             "independent seeds and exclusive groups are run through evaluate_hybrid_with_clock / evaluate_topk / "
+             "compile_lineage_to_sdd_with_clock with a scripted clock that passes the deadline at the j-th reading for every j, and small rule "
+             "programs through Reasoner::infer_new_facts_with_hybrid; a TLA+ trace specification computes the true probability of every "
+             "lineage by world enumeration and judges every recorded result (exact value, interval, Alert/NoAlert, NeedsExact bounds).",
+        design_ref="DESIGN.md section 5 (C08)",
+        note="Trusted: TLC, Json module, recording harness (harness/src/c08.rs: float->scaled-integer step with slack 1e-9). Dyadic seed "
+             "probabilities and thresholds only (exact in f64); complete exclusive groups; <= 12 seeds. evaluate_topk has no injectable clock "
+             "(real budgets: generous / already expired). The Reasoner path judges each fact's result against the lineage the materialisation "
+             "recorded (lineage correctness is C06). L1 exhaustive only within the cfg constants.",
+        technique="TLA+ model checking (TLC) + exhaustive small-universe replay + clock-fault enumeration + trace validation against the TLA+ requirement",
+    ),
     "C14": dict(
         category="model_checking",
         text="TLC evaluates a transcription, over a 20-class character alphabet, of the N-Quads / N-Triples exporters (term-kind guess, "
